@@ -27,6 +27,24 @@ import (
 // product publish QoS x subscription options of one or two overlapping subscriptions x
 // {live, retained-on-subscribe} and in addition replacement, removal and retained-then-live
 // combinations. Every delivery is acknowledged by the harness client at once.
+// With ",lite" the option product is cut down (subscription QoS 1, no Retain As Published,
+// publishes x/y and x at QoS 1) to pay for a second publish: sequences in which a publish
+// matching both subscriptions is followed by one matching a single subscription (other
+// topic, or the other filter unsubscribed) - a delivery must carry the identifiers of the
+// subscriptions matching IT, whatever was delivered before.
+//
+// E2 scenario "c04tx" (every transmission), arg "v<4|5>,rm<0|1>[,full]": the subscriber does
+// NOT acknowledge by itself and keeps its session (clean start 0, v5 session expiry; with
+// rm1 a v5 Receive Maximum of 1). Ops:
+//   sub:<i>:<qos>:<id>:<rap>   as above, QoS 1|2, only before the first publish, x/+ before x/#
+//   pub:x/y:<qos>:<retain>     QoS 1|2
+//   ack                        s acknowledges its oldest outstanding delivery completely
+//                              (PUBACK, or PUBREC + PUBCOMP) - releases a deferred message
+//   rc                         s's connection drops and s reconnects, resuming the session
+// QoS, identifiers and retain flag are judged on EVERY PUBLISH packet that carries the
+// message: the first transmission (live, or "deferred" when it was held behind Receive
+// Maximum and written later from the stored copy) and every retransmission ("resend")
+// after the session is resumed. Whether and when a message is (re)transmitted is C09/C11.
 //
 // Reference model (from MQTT 5 §3.3.1.2/3.3.1.3/3.3.4/3.8.3/3.8.4/3.9.3, not from mochi):
 // subs: filter -> (qos, id, rap); retained: topic -> (tag, qos as accepted = min(pub, mq)).
@@ -50,18 +68,140 @@ type c04Model struct {
 	subs               map[string]c04Sub
 	retained           map[string]c04Ret
 	nsub, npub, nunsub int
+	common             bool   // an earlier publish matched two subscriptions that both have an identifier
+	pubs               string // lite: what was published so far (kept in the state key, see below)
 }
 
 var c04Filters = map[string]string{"1": "x/+", "2": "x/#"}
 
-func (m *c04Model) matching(topic string) []string {
+func (m *c04Model) matching(topic string) []string { return c04Matching(m.subs, topic) }
+
+func c04Matching(subs map[string]c04Sub, topic string) []string {
 	var out []string
-	for _, f := range explore.SortedKeys(m.subs) {
+	for _, f := range explore.SortedKeys(subs) {
 		if ref.Match(f, topic) {
 			out = append(out, f)
 		}
 	}
 	return out
+}
+
+// c04Oracle judges one PUBLISH packet delivered to s against the subscriptions subs.
+// kind: live | retained | deferred | resend (first three: first transmission). own = filter
+// whose SUBSCRIBE triggered a retained delivery ("" otherwise).
+type c04Oracle struct {
+	h       *H
+	cnt     map[string]int
+	ver, mq byte
+	former  map[int]bool // identifiers of subscriptions s held earlier (replaced or removed)
+}
+
+func (o *c04Oracle) judge(subs map[string]c04Sub, p ref.Packet, topic string, pubQos byte, pubRetain bool, own, kind string) {
+	h, cnt, ver, mq := o.h, o.cnt, o.ver, o.mq
+	M := c04Matching(subs, topic)
+	if len(M) == 0 {
+		return // not entitled at all: C03/C05 territory
+	}
+	var hi byte
+	allRap, noneRap := true, true
+	must, may := map[int]int{}, map[int]int{}
+	for _, f := range M {
+		s := subs[f]
+		if s.qos > hi {
+			hi = s.qos
+		}
+		if s.rap {
+			noneRap = false
+		} else {
+			allRap = false
+		}
+		if s.id > 0 {
+			if own == "" || f == own {
+				must[s.id]++
+			} else {
+				may[s.id]++
+			}
+		}
+	}
+	// QoS
+	wantHi := minb(pubQos, hi, mq)
+	wantLo := wantHi
+	if own != "" {
+		wantLo = minb(pubQos, subs[own].qos, mq)
+	}
+	h.count(cnt, kind+"_deliveries", 1)
+	if p.Qos < wantLo || p.Qos > wantHi {
+		dir := "low"
+		if p.Qos > wantHi {
+			dir = "high"
+		}
+		h.violate(fmt.Sprintf("c04:qos:%s:%s:v%d", kind, dir, ver), "%s delivery of %q (published q%d) to s: QoS %d, want %d..%d = min(published, highest matching subscription %d, server maximum %d); subs=%v", kind, topic, pubQos, p.Qos, wantLo, wantHi, hi, mq, subs)
+	}
+	if wantHi < pubQos {
+		h.count(cnt, kind+"_downgraded", 1)
+	}
+	// identifiers
+	got := subIDs(p)
+	seen := map[int]int{}
+	for _, id := range got {
+		seen[id]++
+	}
+	if len(must) > 0 {
+		h.count(cnt, kind+"_with_identifier", 1)
+	}
+	if len(must) > 1 {
+		h.count(cnt, kind+"_with_two_identifiers", 1)
+	}
+	for id := range must {
+		if seen[id] == 0 {
+			which := "identifier"
+			if own != "" {
+				which = "own-identifier"
+			}
+			h.violate(fmt.Sprintf("c04:%s:missing-%s", kind, which), "%s delivery of %q to s carries identifiers %v, but the matching subscription with identifier %d requires it; subs=%v own=%q", kind, topic, got, id, subs, own)
+		}
+	}
+	for id, n := range seen {
+		switch {
+		case id == 0:
+			h.violate("c04:"+kind+":identifier-zero", "%s delivery of %q carries subscription identifier 0 (%v); subs=%v", kind, topic, got, subs)
+		case must[id]+may[id] == 0:
+			of := ""
+			if o.former[id] {
+				of = ":of-removed-subscription"
+			}
+			for _, s := range subs {
+				if s.id == id {
+					of = ":of-non-matching-subscription"
+				}
+			}
+			h.violate("c04:"+kind+":foreign-identifier"+of, "%s delivery of %q carries identifier %d of no matching subscription (%v); subs=%v", kind, topic, id, got, subs)
+		case n > must[id]+may[id]:
+			// one occurrence per matching subscription is the most the text allows
+			h.violate("c04:"+kind+":duplicate-identifier", "%s delivery of %q carries identifier %d %d times but only %d matching subscriptions have it", kind, topic, id, n, must[id]+may[id])
+		}
+	}
+	// retain flag (live message only; retained deliveries are C05's). It is a property of
+	// the delivered message, so it holds for every packet that transmits it.
+	if own == "" {
+		switch {
+		case !pubRetain || ver < 5 || noneRap:
+			if p.Retain {
+				why := "not-published-retained"
+				if pubRetain {
+					why = "no-rap"
+				}
+				h.violate("c04:"+kind+":retain-set:"+why, "%s delivery of %q (published retain=%v) has retain=1; subs=%v", kind, topic, pubRetain, subs)
+			}
+		case allRap:
+			h.count(cnt, kind+"_rap_kept", 1)
+			if !p.Retain {
+				h.violate("c04:"+kind+":retain-cleared-despite-rap", "%s delivery of %q published with retain=1 lost the flag although every matching subscription asked for Retain As Published; subs=%v", kind, topic, subs)
+			}
+		default:
+			h.count(cnt, kind+"_rap_mixed_unspecified", 1)
+		}
+	}
 }
 
 func c04Run(arg string) explore.HistFn {
@@ -78,6 +218,7 @@ func c04Run(arg string) explore.HistFn {
 	}
 	maxSub, maxPub, maxUnsub := 2, 1, 1
 	ids3 := ver == 5 && strings.Contains(arg, "ids3") // a third identifier value shared by both filters
+	lite := strings.Contains(arg, "lite")             // reduced option product (see above)
 	for _, a := range strings.Split(arg, ",") {
 		if strings.HasPrefix(a, "pool") && len(a) == 7 { // pool<subs><pubs><unsubs>
 			maxSub, maxPub, maxUnsub = int(a[4]-'0'), int(a[5]-'0'), int(a[6]-'0')
@@ -91,107 +232,13 @@ func c04Run(arg string) explore.HistFn {
 		h.connect("s", world.ConnectPacket("s", ver, true))
 		pid := uint16(100)
 
-		// judge one delivered PUBLISH against the model. own = filter whose SUBSCRIBE
-		// triggered a retained delivery ("" for live).
+		orc := &c04Oracle{h: h, cnt: cnt, ver: ver, mq: mq, former: map[int]bool{}}
 		judge := func(p ref.Packet, topic string, pubQos byte, pubRetain bool, own string) {
 			kind := "live"
 			if own != "" {
 				kind = "retained"
 			}
-			M := m.matching(topic)
-			if len(M) == 0 {
-				return // not entitled at all: C03/C05 territory
-			}
-			var hi byte
-			allRap, noneRap := true, true
-			must, may := map[int]int{}, map[int]int{}
-			for _, f := range M {
-				s := m.subs[f]
-				if s.qos > hi {
-					hi = s.qos
-				}
-				if s.rap {
-					noneRap = false
-				} else {
-					allRap = false
-				}
-				if s.id > 0 {
-					if own == "" || f == own {
-						must[s.id]++
-					} else {
-						may[s.id]++
-					}
-				}
-			}
-			// QoS
-			wantHi := minb(pubQos, hi, mq)
-			wantLo := wantHi
-			if own != "" {
-				wantLo = minb(pubQos, m.subs[own].qos, mq)
-			}
-			h.count(cnt, kind+"_deliveries", 1)
-			if p.Qos < wantLo || p.Qos > wantHi {
-				dir := "low"
-				if p.Qos > wantHi {
-					dir = "high"
-				}
-				h.violate(fmt.Sprintf("c04:qos:%s:%s:v%d", kind, dir, ver), "%s delivery of %q (published q%d) to s: QoS %d, want %d..%d = min(published, highest matching subscription %d, server maximum %d); subs=%v", kind, topic, pubQos, p.Qos, wantLo, wantHi, hi, mq, m.subs)
-			}
-			if wantHi < pubQos {
-				h.count(cnt, kind+"_downgraded", 1)
-			}
-			// identifiers
-			got := subIDs(p)
-			seen := map[int]int{}
-			for _, id := range got {
-				seen[id]++
-			}
-			if len(must) > 0 {
-				h.count(cnt, kind+"_with_identifier", 1)
-			}
-			if len(must) > 1 {
-				h.count(cnt, kind+"_with_two_identifiers", 1)
-			}
-			for id := range must {
-				if seen[id] == 0 {
-					which := "identifier"
-					if own != "" {
-						which = "own-identifier"
-					}
-					h.violate(fmt.Sprintf("c04:%s:missing-%s", kind, which), "%s delivery of %q to s carries identifiers %v, but the matching subscription with identifier %d requires it; subs=%v own=%q", kind, topic, got, id, m.subs, own)
-				}
-			}
-			for id, n := range seen {
-				switch {
-				case id == 0:
-					h.violate("c04:"+kind+":identifier-zero", "%s delivery of %q carries subscription identifier 0 (%v); subs=%v", kind, topic, got, m.subs)
-				case must[id]+may[id] == 0:
-					h.violate("c04:"+kind+":foreign-identifier", "%s delivery of %q carries identifier %d of no matching subscription (%v); subs=%v", kind, topic, id, got, m.subs)
-				case n > must[id]+may[id]:
-					// one occurrence per matching subscription is the most the text allows
-					h.violate("c04:"+kind+":duplicate-identifier", "%s delivery of %q carries identifier %d %d times but only %d matching subscriptions have it", kind, topic, id, n, must[id]+may[id])
-				}
-			}
-			// retain flag (live only; retained deliveries are C05's)
-			if own == "" {
-				switch {
-				case !pubRetain || ver < 5 || noneRap:
-					if p.Retain {
-						why := "not-published-retained"
-						if pubRetain {
-							why = "no-rap"
-						}
-						h.violate("c04:live:retain-set:"+why, "live delivery of %q (published retain=%v) has retain=1; subs=%v", topic, pubRetain, m.subs)
-					}
-				case allRap:
-					h.count(cnt, "live_rap_kept", 1)
-					if !p.Retain {
-						h.violate("c04:live:retain-cleared-despite-rap", "live delivery of %q published with retain=1 lost the flag although every matching subscription asked for Retain As Published; subs=%v", topic, m.subs)
-					}
-				default:
-					h.count(cnt, "live_rap_mixed_unspecified", 1)
-				}
-			}
+			orc.judge(m.subs, p, topic, pubQos, pubRetain, own, kind)
 		}
 
 		runHist(h, hist, func(op string) {
@@ -212,6 +259,9 @@ func c04Run(arg string) explore.HistFn {
 				h.logf("s: -> %s", pk)
 				h.W.Run()
 				got := h.settle(true)["s"]
+				if old, ok := m.subs[filter]; ok && old.id != id {
+					orc.former[old.id] = true
+				}
 				m.subs[filter] = c04Sub{q, id, rap}
 				if len(got) == 0 || got[0].Type != ref.SUBACK || got[0].PacketID != pid || len(got[0].ReasonCodes) != 1 {
 					h.violate("c04:suback:absent", "SUBSCRIBE %s: first packet is not its SUBACK: %v", filter, got)
@@ -235,12 +285,16 @@ func c04Run(arg string) explore.HistFn {
 				m.nunsub++
 				pid++
 				h.do("s", ref.Packet{Type: ref.UNSUBSCRIBE, PacketID: pid, Filters: []ref.Filter{{Filter: filter}}})
+				orc.former[m.subs[filter].id] = true
 				delete(m.subs, filter)
 			case "pub":
 				topic := f[1]
 				q := f[2][0] - '0'
 				retain := f[3] == "1"
 				m.npub++
+				if lite {
+					m.pubs += " " + topic + f[3]
+				}
 				tag := "m" + itoa(m.npub)
 				pk := pub(topic, tag, q, 0)
 				if q > 0 {
@@ -265,6 +319,19 @@ func c04Run(arg string) explore.HistFn {
 						judge(p, topic, q, retain, "")
 					}
 				}
+				withID := 0
+				for _, f := range m.matching(topic) {
+					if m.subs[f].id > 0 {
+						withID++
+					}
+				}
+				if m.common && n > 0 && withID < 2 {
+					// the identifiers must be those of the subscriptions matching THIS message
+					h.count(cnt, "live_after_common_match", 1)
+				}
+				if n > 0 && withID >= 2 {
+					m.common = true
+				}
 				if len(m.matching(topic)) > 0 && n != 1 && q <= mq {
 					// a publish above the announced maximum QoS may be refused; otherwise one copy is due
 					h.violate("c04:live:copies", "publish %q q%d: s holds %v and received %d copies", topic, q, m.matching(topic), n)
@@ -277,6 +344,9 @@ func c04Run(arg string) explore.HistFn {
 		if m.nsub < maxSub && (m.npub < maxPub || len(m.retained) > 0) {
 			for _, i := range []string{"1", "2"} {
 				for q := 0; q <= 2; q++ {
+					if lite && q != 1 {
+						continue
+					}
 					if ver < 5 {
 						next = append(next, fmt.Sprintf("sub:%s:%d:0:0", i, q))
 						continue
@@ -287,6 +357,9 @@ func c04Run(arg string) explore.HistFn {
 					}
 					for _, id := range ids {
 						for _, rap := range []string{"0", "1"} {
+							if lite && rap == "1" {
+								continue
+							}
 							next = append(next, fmt.Sprintf("sub:%s:%d:%s:%s", i, q, id, rap))
 						}
 					}
@@ -294,15 +367,23 @@ func c04Run(arg string) explore.HistFn {
 			}
 		}
 		if m.npub < maxPub {
-			for q := 0; q <= 2; q++ {
-				for _, r := range []string{"0", "1"} {
-					next = append(next, fmt.Sprintf("pub:x/y:%d:%s", q, r))
+			if lite {
+				next = append(next, "pub:x/y:1:0", "pub:x:1:0")
+				if strings.Contains(arg, "ret") {
+					next = append(next, "pub:x/y:0:1") // retained: deliveries on SUBSCRIBE in between
 				}
+			} else {
+				for q := 0; q <= 2; q++ {
+					for _, r := range []string{"0", "1"} {
+						next = append(next, fmt.Sprintf("pub:x/y:%d:%s", q, r))
+					}
+				}
+				// topic x matches only x/#: identifiers of x/+ must not appear
+				next = append(next, "pub:x:1:0", "pub:x:2:1")
 			}
-			// topic x matches only x/#: identifiers of x/+ must not appear
-			next = append(next, "pub:x:1:0", "pub:x:2:1")
 		}
-		if m.nunsub < maxUnsub {
+		// lite: removing a subscription before anything was published is the main product's business
+		if m.nunsub < maxUnsub && (!lite || m.npub > 0) {
 			for i, f := range c04Filters {
 				if _, ok := m.subs[f]; ok {
 					next = append(next, "unsub:"+i)
@@ -310,7 +391,238 @@ func c04Run(arg string) explore.HistFn {
 			}
 		}
 		sort.Strings(next)
-		key := h.W.State() + fmt.Sprintf("|model:%v|%v|%d,%d,%d", m.subs, m.retained, m.nsub, m.npub, m.nunsub)
+		// lite looks for deliveries that depend on what was delivered before, so histories that
+		// differ in the topics published are not merged even if the broker state looks the same
+		key := h.W.State() + fmt.Sprintf("|model:%v|%v|%d,%d,%d|%v%s", m.subs, m.retained, m.nsub, m.npub, m.nunsub, m.common, m.pubs)
+		r := h.finish(key, next)
+		r.Counters = cnt
+		return r
+	}
+}
+
+// ---- c04tx: every transmission of a delivered message ----
+
+// c04Out is a QoS>0 delivery to s that s has not acknowledged completely.
+type c04Out struct {
+	tag    string
+	pubQos byte
+	retain bool
+	tx     int    // PUBLISH packets seen that carry it
+	pid    uint16 // packet id of the last one
+	qos    byte   // and its QoS
+	conn   int    // connection on which it was last transmitted
+}
+
+func c04TxRun(arg string) explore.HistFn {
+	ver := byte(5)
+	if strings.Contains(arg, "v4") {
+		ver = 4
+	}
+	rm := 0
+	if ver == 5 && strings.Contains(arg, "rm1") {
+		rm = 1
+	}
+	full := strings.Contains(arg, "full") // full option product also for the second filter
+	maxPub, maxAck, maxRc := 1, 1, 1
+	if rm > 0 {
+		maxPub, maxAck = 2, 2
+	}
+	const mq, topic = byte(2), "x/y"
+	connectPacket := func() ref.Packet {
+		if ver < 5 {
+			return world.ConnectPacket("s", ver, false)
+		}
+		props := []ref.Prop{{ID: ref.PSessionExpiry, Num: 1000000}}
+		if rm > 0 {
+			props = append(props, ref.Prop{ID: ref.PReceiveMaximum, Num: uint32(rm)})
+		}
+		return world.ConnectPacket("s", 5, false, props...)
+	}
+	return func(hist []string) explore.HistResult {
+		h := newH(world.Config{Caps: func(c *mqtt.Capabilities) { c.MaximumQos = mq }})
+		cnt := map[string]int{}
+		orc := &c04Oracle{h: h, cnt: cnt, ver: ver, mq: mq}
+		subs := map[string]c04Sub{}
+		var out []*c04Out // publish order
+		conn, npub, nack, nrc := 1, 0, 0, 0
+		h.connect("p", world.ConnectPacket("p", 5, true))
+		h.connect("s", connectPacket())
+		pid := uint16(100)
+
+		// settle: p behaves (releases its QoS 2 publishes); s only listens. Every PUBLISH
+		// that reaches s is judged. step = the op is the publish of that very message.
+		atS := func(pks []ref.Packet, published string) {
+			for _, p := range pubsOf(pks) {
+				var o *c04Out
+				for _, x := range out {
+					if x.tag == string(p.Payload) {
+						o = x
+					}
+				}
+				if o == nil || p.Topic != topic {
+					continue // a message already acknowledged completely (C08/C09), or an aliased topic
+				}
+				kind := "resend"
+				switch {
+				case o.tx == 0 && o.tag == published:
+					kind = "live"
+				case o.tx == 0:
+					kind = "deferred"
+				}
+				o.tx++
+				o.pid, o.qos, o.conn = p.PacketID, p.Qos, conn
+				orc.judge(subs, p, topic, o.pubQos, o.retain, "", kind)
+				if p.Qos == 0 {
+					// nothing to acknowledge and nothing to retransmit: a QoS 0 copy is not tracked
+					o.conn = -1
+				}
+			}
+		}
+		settle := func(published string) {
+			for round := 0; round < 8; round++ {
+				sent := false
+				for _, r := range h.poll("p") {
+					if r.Type == ref.PUBREC && r.ReasonCode < 0x80 {
+						h.Cl["p"].Send(ref.Packet{Type: ref.PUBREL, PacketID: r.PacketID})
+						sent = true
+					}
+				}
+				atS(h.poll("s"), published)
+				if !sent {
+					break
+				}
+				h.W.Run()
+			}
+		}
+
+		runHist(h, hist, func(op string) {
+			f := fields(op)
+			switch f[0] {
+			case "sub":
+				filter := c04Filters[f[1]]
+				q := f[2][0] - '0'
+				id := int(f[3][0] - '0')
+				rap := f[4] == "1"
+				pid++
+				pk := ref.Packet{Type: ref.SUBSCRIBE, PacketID: pid, Filters: []ref.Filter{{Filter: filter, Opts: ref.SubOpts(q, false, rap, 0)}}}
+				if id > 0 {
+					pk.Props = ref.Props{{ID: ref.PSubscriptionID, Num: uint32(id)}}
+				}
+				got := h.do("s", pk)
+				subs[filter] = c04Sub{q, id, rap}
+				if len(got) != 1 || got[0].Type != ref.SUBACK || len(got[0].ReasonCodes) != 1 || got[0].ReasonCodes[0] != q {
+					h.violate(fmt.Sprintf("c04:suback:granted:v%d", ver), "SUBSCRIBE %s requested QoS %d, server maximum %d: got %v", filter, q, mq, got)
+				}
+			case "pub":
+				q := f[2][0] - '0'
+				npub++
+				o := &c04Out{tag: "m" + itoa(npub), pubQos: q, retain: f[3] == "1"}
+				out = append(out, o)
+				pid++
+				pk := pub(topic, o.tag, q, pid)
+				pk.Retain = o.retain
+				h.Cl["p"].Send(pk)
+				h.logf("p: -> %s", pk)
+				h.W.Run()
+				settle(o.tag)
+			case "ack":
+				nack++
+				for i, o := range out {
+					if o.conn != conn {
+						continue
+					}
+					if o.qos == 1 {
+						h.Cl["s"].Send(ref.Packet{Type: ref.PUBACK, PacketID: o.pid})
+						h.logf("s: -> PUBACK %d", o.pid)
+					} else {
+						h.Cl["s"].Send(ref.Packet{Type: ref.PUBREC, PacketID: o.pid})
+						h.logf("s: -> PUBREC %d", o.pid)
+					}
+					h.W.Run()
+					// from here on the message is not outstanding any more: a PUBLISH that still
+					// carries it is a duplicate, which is C08/C09's business
+					out = append(out[:i:i], out[i+1:]...)
+					got := h.poll("s")
+					atS(got, "") // a message released by the acknowledgement
+					for _, r := range got {
+						if r.Type == ref.PUBREL {
+							h.Cl["s"].Send(ref.Packet{Type: ref.PUBCOMP, PacketID: r.PacketID})
+							h.logf("s: -> PUBCOMP %d", r.PacketID)
+							h.W.Run()
+						}
+					}
+					settle("")
+					break
+				}
+			case "rc":
+				nrc++
+				h.Cl["s"].Drop()
+				h.logf("s: dropped")
+				h.W.Run()
+				conn++
+				cp := connectPacket()
+				cl := h.W.Connect(cp)
+				h.Cl["s"] = cl
+				h.All = append(h.All, cl)
+				h.logf("s: -> %s", cp)
+				for _, o := range out {
+					if o.tx > 0 && o.qos > 0 {
+						h.count(cnt, "resumed_with_unacknowledged", 1)
+						break
+					}
+				}
+				settle("")
+			}
+		})
+
+		var next []string
+		if npub == 0 {
+			// x/+ before x/#, no replacement (the live product covers it)
+			_, has1 := subs[c04Filters["1"]]
+			_, has2 := subs[c04Filters["2"]]
+			for _, i := range []string{"1", "2"} {
+				if has2 || (i == "1" && has1) {
+					continue
+				}
+				for q := 1; q <= 2; q++ {
+					if ver < 5 {
+						next = append(next, fmt.Sprintf("sub:%s:%d:0:0", i, q))
+						continue
+					}
+					for _, id := range []string{"0", i} {
+						for _, rap := range []string{"0", "1"} {
+							if i == "2" && !full && (q != 2 || id != "2") {
+								continue
+							}
+							next = append(next, fmt.Sprintf("sub:%s:%d:%s:%s", i, q, id, rap))
+						}
+					}
+				}
+			}
+		}
+		if npub < maxPub && len(subs) > 0 {
+			for q := 1; q <= 2; q++ {
+				for _, r := range []string{"0", "1"} {
+					next = append(next, fmt.Sprintf("pub:%s:%d:%s", topic, q, r))
+				}
+			}
+		}
+		var outs []string
+		ackable := false
+		for _, o := range out {
+			outs = append(outs, fmt.Sprintf("%s/q%d/r%v/tx%d/%d/q%d/%v", o.tag, o.pubQos, o.retain, o.tx, o.pid, o.qos, o.conn == conn))
+			if o.conn == conn {
+				ackable = true
+			}
+		}
+		if ackable && nack < maxAck {
+			next = append(next, "ack")
+		}
+		if len(out) > 0 && nrc < maxRc {
+			next = append(next, "rc")
+		}
+		sort.Strings(next)
+		key := h.W.State() + fmt.Sprintf("|model:%v|%v|%d,%d,%d", subs, outs, npub, nack, nrc)
 		r := h.finish(key, next)
 		r.Counters = cnt
 		return r
@@ -319,28 +631,38 @@ func c04Run(arg string) explore.HistFn {
 
 func init() {
 	explore.RegisterBFS("c04", c04Run)
+	explore.RegisterBFS("c04tx", c04TxRun)
 	explore.Register("C04", func(c *explore.Ctx) {
 		c.Rep.Level = "model_checking"
-		c.Rep.Assumption("one operation at a time, broker run to quiescence under the deterministic default schedule (sequential histories); deliveries acknowledged at once")
+		c.Rep.Assumption("one operation at a time, broker run to quiescence under the deterministic default schedule (sequential histories); deliveries acknowledged at once (c04) or only by explicit ack operations (c04tx)")
+		c.Rep.Assumption("c04tx: subscriptions do not change while a delivery is unacknowledged, so a retransmission is judged against the same subscriptions as the first transmission; whether, when and with which DUP flag a message is retransmitted is not judged here (C09, C11, C12)")
 		c.Rep.Assumption("three-valued oracle: identifiers of other matching subscriptions on a retained delivery, the QoS ceiling of a retained delivery (own subscription vs highest matching) and the live retain flag when matching subscriptions disagree on Retain As Published are unspecified")
 		c.Rep.Assumption("a publish whose QoS exceeds the server maximum may be refused; if it is delivered its QoS must follow the formula")
+		// the small sequence scenarios first, so that a slow machine caps the big product last
+		type scen struct{ name, arg string }
+		scens := []scen{{"c04tx", "v5,rm0,full"}, {"c04tx", "v5,rm1"}, {"c04tx", "v4,rm0"}, {"c04", "v5,mq2,pool221,lite,ids3,ret"}}
 		args := []string{"v5,mq2,ids3", "v5,mq1,ids3", "v5,mq0,ids3", "v4,mq2", "v4,mq1", "v4,mq0"}
 		per := 20 * time.Second
 		if !c.Quick() {
+			scens = []scen{{"c04tx", "v5,rm0,full"}, {"c04tx", "v5,rm1,full"}, {"c04tx", "v4,rm0"}, {"c04", "v5,mq2,pool232,lite,ids3,ret"}, {"c04", "v5,mq2,pool331,lite,ids3,ret"}, {"c04", "v5,mq1,pool221,lite,ids3,ret"}}
 			args = []string{"v5,mq2,pool311,ids3", "v5,mq1,pool311,ids3", "v5,mq0,pool311,ids3", "v4,mq2,pool321", "v4,mq1,pool321", "v4,mq0,pool321"}
 			per = 170 * time.Second
 		}
-		tot := map[string]int64{}
 		for _, a := range args {
+			scens = append(scens, scen{"c04", a})
+		}
+		tot := map[string]int64{}
+		for _, sc := range scens {
+			a := sc.arg
 			if c.Expired() {
-				c.Rep.Capped("scenario c04/" + a + " not started (deadline)")
+				c.Rep.Capped("scenario " + sc.name + "/" + a + " not started (deadline)")
 				continue
 			}
 			budget := per
 			if strings.Contains(a, "v4") {
 				budget = per / 3
 			}
-			st := explore.RunBFS(c, "c04", a, 0, budget)
+			st := explore.RunBFS(c, sc.name, a, 0, budget)
 			for k, v := range st.Counters {
 				tot[k] += v
 			}
@@ -348,9 +670,10 @@ func init() {
 		for k, v := range tot {
 			c.Rep.Count("c04_"+k, v)
 		}
-		if os := tot["live_deliveries"]; os == 0 || tot["retained_deliveries"] == 0 || tot["live_with_two_identifiers"] == 0 || tot["subacks_capped"] == 0 {
+		if os := tot["live_deliveries"]; os == 0 || tot["retained_deliveries"] == 0 || tot["live_with_two_identifiers"] == 0 || tot["subacks_capped"] == 0 ||
+			tot["resend_deliveries"] == 0 || tot["deferred_deliveries"] == 0 || tot["resend_rap_kept"] == 0 || tot["resend_with_two_identifiers"] == 0 || tot["live_after_common_match"] == 0 {
 			if fullRun() && c.Rep.Get("transitions") > 0 {
-				c.Rep.Add(explore.Violation{Key: "internal:vacuous", Msg: fmt.Sprintf("C04 judged no live/retained/two-identifier delivery or no capped SUBACK: %v", tot)})
+				c.Rep.Add(explore.Violation{Key: "internal:vacuous", Msg: fmt.Sprintf("C04 judged no live/retained/two-identifier/resent/deferred delivery, no single-match delivery after a common match or no capped SUBACK: %v", tot)})
 			}
 		}
 	})
